@@ -83,13 +83,10 @@ func (stp *STP) NextLayerType() gopacket.LayerType {
 
 // Check if the priority value is correct.
 func checkPriority(prio uint16) (uint16, error) {
-	if prio == 0 {
-		return prio, errors.New("Invalid Priority value must be in the rage <4096-61440> with an increment of 4096")
-	}
 	if prio%4096 == 0 {
 		return prio, nil
 	} else {
-		return prio, errors.New("Invalid Priority value must be in the rage <4096-61440> with an increment of 4096")
+		return prio, errors.New("Invalid Priority value must be in the rage <0-61440> with an increment of 4096")
 	}
 }
 
